@@ -73,7 +73,7 @@ pub fn gen_cfg(rng: &mut Rng, i: usize, collide: bool) -> HCfg {
 pub fn run(seed: u64, tier: &str, shard: usize, nshards: usize, collide: bool) -> ShardResult {
     let prop = if collide { "C17" } else { "C01" };
     let mut res = ShardResult::new(&format!("c01-{prop}"), seed);
-    let rt = tokio::runtime::Builder::new_multi_thread().worker_threads(3).enable_all().build().unwrap();
+    let mut rt = tokio::runtime::Builder::new_multi_thread().worker_threads(3).enable_all().build().unwrap();
     let total = if tier == "thorough" { 40_000 } else { 3_200 };
     let mut rng = Rng::derive(seed, 0xC01_000 + shard as u64 + if collide { 7777 } else { 0 });
     // bulk family: wrapped device + graceful reopen (a few plans per shard, they are long)
@@ -85,6 +85,10 @@ pub fn run(seed: u64, tier: &str, shard: usize, nshards: usize, collide: bool) -
         }
     }
     for i in 0..total / nshards.max(1) {
+        // a closed HybridCache keeps its partition files open for as long as its runtime lives: recycle the runtime regularly
+        if i % 25 == 24 {
+            std::mem::replace(&mut rt, tokio::runtime::Builder::new_multi_thread().worker_threads(3).enable_all().build().unwrap()).shutdown_background();
+        }
         let cfg = gen_cfg(&mut rng, i, collide);
         let max = cfg.max_entry_size();
         let nkeys = 3 + rng.usize(3);
@@ -157,6 +161,7 @@ pub fn run(seed: u64, tier: &str, shard: usize, nshards: usize, collide: bool) -
             }
         }
     }
+    rt.shutdown_background();
     res
 }
 
